@@ -201,7 +201,16 @@ def lightswitch_rules(prog, chk, pid):
                 ok, why = False, "outer lock is not %sd exactly when the counter is %d after the update" % (lockop, thresh)
         chk.require(ok, P("lightswitch-" + meth), fi.qualname, "mutex; counter %+d; if counter == %d: lock.%s(); release mutex" % (delta, thresh, lockop), where,
                     "first-in takes / last-out releases the outer lock, with the counter only touched under the mutex", why)
-    # constructor: counter 0, own mutex
+    # constructor: counter 0, own mutex -- a switch without a constructor, or with its Lock created in the class body,
+    # shares one mutex between all switches (the read and the write switch of a lock would block each other)
+    lsc = prog.cls(RW + "._LightSwitch")
+    import ast as _ast
+
+    class_level = [_ast.unparse(n)[:60] for n in lsc.node.body if isinstance(n, (_ast.Assign, _ast.AnnAssign)) and "Lock" in _ast.unparse(n)]
+    if "__init__" not in lsc.methods or class_level:
+        chk.fail(P("lightswitch-init"), lsc.qualname, "counter = 0; mutex = threading.Lock() per instance", "%s:%d" % (lsc.module.relpath, lsc.node.lineno),
+                 "the switch's mutex is not created per instance in __init__ (%s): all switches share one lock object" % (class_level[:1] or "no __init__"))
+        return
     fi, ex, res = _events(prog, RW + "._LightSwitch.__init__")
     sets = {e.d["name"].split("__")[-1]: unsnap(e.d["value"]) for e in res.events if e.kind == "setattr"}
     ok = is_const(sets.get("counter", NONE)) and cval(sets["counter"]) == 0 and "mutex" in sets and show(sets["mutex"], 3).startswith("threading.Lock")
